@@ -40,10 +40,12 @@ SplitBufsQuick == <<1, 2, 3, 4, 5, 1000, None>>
 SplitBufsThorough == <<1, 2, 3, 4, 5, 6, 7, 8, 9, 1000, None>>
 
 VARIABLES cfg, drv, N, src,
+          odd,                         \* run driver: -1, or the position (0..N-1) at which the flow carries an odd value
+                                       \* (None, 0, "", (), [], False, StopIteration, nan) instead of an ordinary one
           s, k, outs, h, since,        \* fill/request driver
           pos, rel, out, phase,        \* run driver
           act                          \* name of the action taken last (vacuity census)
-vars == <<cfg, drv, N, src, s, k, outs, h, since, pos, rel, out, phase, act>>
+vars == <<cfg, drv, N, src, odd, s, k, outs, h, since, pos, rel, out, phase, act>>
 
 Cfgs == {[n |-> n, bufIn |-> b, reset |-> r, yor |-> y, kind |-> kd, m |-> m, pv |-> pv, take |-> tk] :
            n \in 1..MaxBlock, b \in BOOLEAN, r \in BOOLEAN, y \in BOOLEAN,
@@ -56,6 +58,10 @@ Init == /\ drv \in {"free", "run"} /\ cfg \in Cfgs
         /\ cfg.kind \in {"both", "frc"} => cfg.m = 1
         /\ src \in (IF drv = "run" THEN Srcs ELSE {"iter"})
         /\ N \in (IF drv = "run" THEN 0..MaxLen ELSE {0})
+        \* every position relative to the block boundaries: first / middle / last of a block, first of the flow, first
+        \* after the last complete block
+        /\ odd \in (IF drv = "run" /\ src = "iter" /\ cfg.m = 1 /\ ~cfg.pv /\ cfg.take = 0
+                    THEN {-1} \cup (0..(N - 1)) ELSE {-1})
         /\ s = S0 /\ k = 0 /\ outs = <<>> /\ h = <<>> /\ since = 0
         /\ pos = 0 /\ rel = <<>> /\ out = <<>> /\ phase = (IF drv = "run" THEN "loop" ELSE "calls")
         /\ act = "Init"
@@ -100,7 +106,7 @@ CanCall == drv = "free" /\ Len(h) < MaxOps /\ ~s.hung
 FillCall == /\ CanCall
             /\ s' = DoFill(k) /\ k' = k + 1 /\ since' = since + 1
             /\ h' = Append(h, [op |-> "f", res |-> <<>>, nf |-> Len(s'.fills), hung |-> s'.hung])
-            /\ UNCHANGED <<cfg, drv, N, src, outs>> /\ RunFixed
+            /\ UNCHANGED <<cfg, drv, N, src, odd, outs>> /\ RunFixed
 FillPlain == /\ FillKind(cfg, s) = "plain" /\ FillCall /\ act' = "FillPlain"
 FillBufferIn == /\ FillKind(cfg, s) = "in" /\ FillCall /\ act' = "FillBufferIn"
 FillBufferOut == /\ FillKind(cfg, s) = "out" /\ FillCall /\ act' = "FillBufferOut"
@@ -109,7 +115,7 @@ Request == /\ act' = "Request" /\ CanCall
               /\ s' = r.s /\ outs' = outs \o r.res
               /\ h' = Append(h, [op |-> "r", res |-> r.res, nf |-> Len(r.s.fills), hung |-> FALSE])
            /\ since' = 0
-           /\ UNCHANGED <<cfg, drv, N, src, k>> /\ RunFixed
+           /\ UNCHANGED <<cfg, drv, N, src, odd, k>> /\ RunFixed
 
 (***************************************************************************)
 (* run driver.                                                             *)
@@ -121,16 +127,16 @@ RunBlock == /\ act' = "RunBlock" /\ drv = "run" /\ phase = "loop" /\ N - pos >= 
                /\ out' = out \o PerValue(cfg, blk) \o Res(cfg, rel \o blk)
                /\ rel' = AfterYield(cfg, rel \o blk)
             /\ pos' = pos + cfg.n
-            /\ UNCHANGED <<cfg, drv, N, src, phase>> /\ FreeFixed
+            /\ UNCHANGED <<cfg, drv, N, src, odd, phase>> /\ FreeFixed
 RunRemainder == /\ act' = "RunRemainder" /\ drv = "run" /\ phase = "loop" /\ pos < N /\ N - pos < cfg.n
                 /\ LET blk == Taken(cfg, Blk(pos, N - pos)) IN
                    IF cfg.yor THEN /\ out' = out \o PerValue(cfg, blk) \o Res(cfg, rel \o blk)
                                    /\ rel' = rel \o blk
                    ELSE UNCHANGED <<out, rel>>
                 /\ pos' = N /\ phase' = "done"
-                /\ UNCHANGED <<cfg, drv, N, src>> /\ FreeFixed
+                /\ UNCHANGED <<cfg, drv, N, src, odd>> /\ FreeFixed
 RunEnd == /\ act' = "RunEnd" /\ drv = "run" /\ phase = "loop" /\ pos = N /\ phase' = "done"
-          /\ UNCHANGED <<cfg, drv, N, src, pos, rel, out>> /\ FreeFixed
+          /\ UNCHANGED <<cfg, drv, N, src, odd, pos, rel, out>> /\ FreeFixed
 
 Next == FillPlain \/ FillBufferIn \/ FillBufferOut \/ Request \/ RunBlock \/ RunRemainder \/ RunEnd
 Spec == Init /\ [][Next]_vars
@@ -144,7 +150,8 @@ Free == drv = "free"
 LastIsRequest == h # <<>> /\ h[Len(h)].op = "r"
 
 \* run yields block by block what the element yields for consecutive blocks - whether the flow is an
-\* iterator or a container that can be iterated again (src is not mentioned: the result may not depend on it)
+\* iterator or a container that can be iterated again, and whatever the values are (src and odd are not mentioned:
+\* the result may depend neither on how the flow is handed over nor on a value being None, 0, "", ... at any position)
 RunIsBlocks == RunDone => out = RunSem(cfg, Iota(N))
 RunPrefix == drv = "run" => IsPrefix(out, RunSem(cfg, Iota(N)))
 EmptyFlowNothing == (RunDone /\ N = 0) => out = <<>>
@@ -199,10 +206,10 @@ SeqCases == [j \in 1..(2 * MaxBlock) |->
                IN [n2 |-> n2, oyor |-> oy, out |-> FRSeqRun(cfg, Iota(N), n2, oy)]]
 Emitted ==
   /\ (Free /\ Len(h) = MaxOps) => PrintT(ToJson([t |-> "fr", cfg |-> cfg, h |-> h]))
-  /\ RunDone => PrintT(ToJson([t |-> "run", cfg |-> cfg, N |-> N, src |-> src, out |-> out,
-        split |-> IF src = "iter" /\ cfg.kind \in {"fc", "fr", "frc"}
+  /\ RunDone => PrintT(ToJson([t |-> "run", cfg |-> cfg, N |-> N, src |-> src, odd |-> odd, out |-> out,
+        split |-> IF src = "iter" /\ odd = -1 /\ cfg.kind \in {"fc", "fr", "frc"}
                   THEN [j \in 1..Len(SplitBufs) |->
                           [bs |-> SplitBufs[j], out |-> SplitAround(cfg, Iota(N), SplitBufs[j])]]
                   ELSE <<>>,
-        seq |-> IF src = "iter" /\ cfg.kind \in {"fc", "fr", "frc"} THEN SeqCases ELSE <<>>]))
+        seq |-> IF src = "iter" /\ odd = -1 /\ cfg.kind \in {"fc", "fr", "frc"} THEN SeqCases ELSE <<>>]))
 =============================================================================
